@@ -52,12 +52,15 @@ def build(rng, tier):
             inp = gen.gen_input(r2, p, max_rows=6)
             extra = gen.gen_input(r2, p, max_rows=3)
             inst = f"{pid}_{j}"
-            ops = [f"eng new {inst} {pid} par {r2.choice([1, 2, 4, 8])}"] + engcheck.load_ops(inst, inp) + [f"eng run {inst}", f"eng dump {inst}", f"eng run {inst}", f"eng dump {inst}"]
+            t = r2.choice([1, 2, 4, 8])
+            # odd histories: the Lean side is the PARALLEL physical-index engine model in a pool of the same size (`eng runpp`, Model/EnginePhysPar.lean; Props/C13PhysPar.lean)
+            rn = f"runpp {inst} {t}" if j % 2 == 1 else f"run {inst}"
+            ops = [f"eng new {inst} {pid} par {t}"] + engcheck.load_ops(inst, inp) + [f"eng {rn}", f"eng dump {inst}", f"eng {rn}", f"eng dump {inst}"]
             union = {r: list(v) for r, v in inp.items()}
             for r, rows in extra.items():
                 if rows:
                     ops.append(f"eng push {inst} r{r}" + "".join(" " + eng.sx_tuple(t) for t in rows)); union[r] = union.get(r, []) + list(rows)
-            ops += [f"eng run {inst}", f"eng dump {inst}"]
+            ops += [f"eng {rn}", f"eng dump {inst}"]
             cases.append(engcheck.Case(pid, inst, ops, {"inp": inp, "marks": ["same", union], "kind": "par-history"}))
     # lattice programs: run; run (idempotent: lattice_rerun_idempotent) and run; push; run vs fresh run on the union
     for i, p in enumerate(engcheck.make_programs(rng.fork("c13lat"), 5 if tier == "quick" else 25, genf=gen.gen_lat_program, filt=gen.lat_ok)):
